@@ -1,6 +1,8 @@
 package vh
 
 import (
+	_ "crypto/sha256" // registers the hash with go-digest
+	_ "crypto/sha512"
 	"encoding/json"
 	"fmt"
 	"math/rand"
